@@ -79,11 +79,11 @@ func Base(d string) gm.Schema {
 		FKs: []gm.FK{{Name: "fk_posts_user", Cols: []string{"user_id"}, RefTable: "users", RefCols: []string{"id"}, OnDelete: "CASCADE", OnUpdate: "CASCADE"}},
 	}
 	tags := gm.Table{Name: "tags",
-		Cols: []gm.Col{{Name: "id", Type: ty.big}, {Name: "label", Type: ty.str2}, {Name: "post_id", Type: ty.big, Null: true}, {Name: "tfree1", Type: ty.i, Null: true}},
-		PK:   []gm.Part{{Col: "id"}, {Col: "label"}},
+		Cols:    []gm.Col{{Name: "id", Type: ty.big}, {Name: "label", Type: ty.str2}, {Name: "post_id", Type: ty.big, Null: true}, {Name: "tfree1", Type: ty.i, Null: true}},
+		PK:      []gm.Part{{Col: "id"}, {Col: "label"}},
 		Indexes: []gm.Index{{Name: "idx_tags_post", Parts: []gm.Part{{Col: "post_id"}}}},
-		FKs:  []gm.FK{{Name: "fk_tags_post", Cols: []string{"post_id"}, RefTable: "posts", RefCols: []string{"id"}, OnDelete: "SET NULL", OnUpdate: "CASCADE"}},
-		Checks: []gm.Check{{Name: "ck_tags_label", Expr: q("label") + " <> ''"}},
+		FKs:     []gm.FK{{Name: "fk_tags_post", Cols: []string{"post_id"}, RefTable: "posts", RefCols: []string{"id"}, OnDelete: "SET NULL", OnUpdate: "CASCADE"}},
+		Checks:  []gm.Check{{Name: "ck_tags_label", Expr: q("label") + " <> ''"}},
 	}
 	logs := gm.Table{Name: "logs",
 		Cols: []gm.Col{{Name: "lid", Type: ty.big}, {Name: "msg", Type: ty.text, Null: true}, {Name: "lfree1", Type: ty.i, Null: true}, {Name: "lfree2", Type: ty.str2, Null: true}},
@@ -91,6 +91,17 @@ func Base(d string) gm.Schema {
 	s := gm.Schema{Name: "app", Tables: []gm.Table{users, accounts, posts, tags, logs}}
 	switch d {
 	case "mysql":
+		// character sets the way an inspected database carries them: schema default, every table and some columns with both
+		// CHARSET and COLLATE (resolved offline from the tables embedded in the driver)
+		s.Charset, s.Collation = "utf8mb4", "utf8mb4_0900_ai_ci"
+		for i := range s.Tables {
+			s.Tables[i].Charset, s.Tables[i].Collation = "utf8mb4", "utf8mb4_0900_ai_ci"
+		}
+		s.Tables[0].Charset, s.Tables[0].Collation = "latin1", "latin1_swedish_ci"
+		s.Tables[0].Col("uname").Charset, s.Tables[0].Col("uname").Collation = "latin1", "latin1_bin"            // other collation than the table
+		s.Tables[0].Col("ufree2").Charset, s.Tables[0].Col("ufree2").Collation = "utf8mb4", "utf8mb4_general_ci" // other charset than the table
+		s.Tables[2].Col("pfree2").Charset, s.Tables[2].Col("pfree2").Collation = "latin1", "latin1_swedish_ci"   // other charset than the table
+		s.Tables[2].Col("title").Charset, s.Tables[2].Col("title").Collation = "utf8mb4", "utf8mb4_0900_ai_ci"   // same as the table
 		s.Tables[0].Indexes = append(s.Tables[0].Indexes, gm.Index{Name: "idx_users_bio", Parts: []gm.Part{{Col: "bio", Prefix: 10}}})
 		s.Tables[0].Engine = "MyISAM"
 		s.Tables[4].AutoIncStart = 100
@@ -189,7 +200,7 @@ type Site struct {
 
 // modifyKinds are edits that change one aspect of an existing object; two *different* ones may be combined on the
 // same object (the differ then reports one Modify change with the union of the kind flags).
-var modifyKinds = map[string]bool{"modify-null": true, "modify-type": true, "modify-default": true, "modify-comment": true,
+var modifyKinds = map[string]bool{"modify-null": true, "modify-type": true, "modify-default": true, "modify-comment": true, "modify-charset": true, "modify-collate": true,
 	"index-unique": true, "index-desc": true, "index-type": true, "index-where": true, "index-comment": true,
 	"fk-ondelete": true, "fk-onupdate": true, "fk-column": true, "fk-refcolumn": true}
 
@@ -327,7 +338,7 @@ func AllSites(d string, s gm.Schema) []Site {
 			case c.Type == ty.big:
 				newType = ty.i
 			}
-			if c.Default == "" {
+			if c.Default == "" && c.Charset == "" { // an integer column cannot keep a CHARSET
 				add(EditRef{Kind: "modify-type", Table: T, Obj: cn, Arg: newType}, key)
 			}
 			switch {
@@ -344,6 +355,22 @@ func AllSites(d string, s gm.Schema) []Site {
 			if len(t.PK) == 0 && !c.Null {
 				add(EditRef{Kind: "add-pk", Table: T, Arg: cn}, key, T+".pk")
 			}
+		}
+		for _, c := range t.Cols {
+			if d == "mysql" && c.Charset != "" {
+				key := T + ".col:" + c.Name
+				other := map[string][2]string{"latin1": {"utf8mb4", "utf8mb4_bin"}, "utf8mb4": {"latin1", "latin1_general_ci"}}[c.Charset]
+				sameCs := map[string]string{"latin1_bin": "latin1_general_cs", "latin1_swedish_ci": "latin1_bin", "utf8mb4_general_ci": "utf8mb4_bin", "utf8mb4_0900_ai_ci": "utf8mb4_unicode_ci"}[c.Collation]
+				// both touch the collation: never combined with each other (shared token), but with any other aspect of the column
+				add(EditRef{Kind: "modify-charset", Table: T, Obj: c.Name, Arg: other[0] + "/" + other[1]}, key, key+"#collation")
+				add(EditRef{Kind: "modify-collate", Table: T, Obj: c.Name, Arg: sameCs}, key, key+"#collation")
+			}
+		}
+		if d == "mysql" && t.Charset != "" {
+			other := map[string][2]string{"latin1": {"utf8mb4", "utf8mb4_bin"}, "utf8mb4": {"latin1", "latin1_general_ci"}}[t.Charset]
+			sameCs := map[string]string{"latin1_swedish_ci": "latin1_bin", "utf8mb4_0900_ai_ci": "utf8mb4_unicode_ci"}[t.Collation]
+			add(EditRef{Kind: "table-charset", Table: T, Arg: other[0] + "/" + other[1]}, T+".attr:charset")
+			add(EditRef{Kind: "table-collate", Table: T, Arg: sameCs}, T+".attr:charset")
 		}
 		for _, c := range t.Cols {
 			if c.Gen != "" && d != "postgres" { // PostgreSQL: "changing the generation expression for a column is not supported" (diff refuses)
